@@ -72,6 +72,11 @@ def alphabet(item, rng, ver):
     reqs.append(req(ver, save=0))
     reqs.append(req(ver, save=3, set_=sets[:1]))
     reqs.append(req(ver, load=3))
+    # load and save in one request (the order inside a request is load, set, reset, save; `null` is the last used file)
+    reqs.append(req(ver, load=2, save=0))
+    reqs.append(req(ver, load=2, save=0, set_=sets[:1]))
+    reqs.append(req(ver, load=0, save=3, set_=sets[-1:]))
+    reqs.append(req(ver, load=3, save=0, set_=sets[:1]))
     return reqs
 
 
@@ -143,7 +148,7 @@ def main(run):
             seq = [dict(r) for r in seq] + [req(ver, save=4)]
             conc = [servercheck.concrete_request(r, paths + [final], rev_ids) for r in seq]
             lines, err, exc = servercheck.run_server_lines(kpath, paths[0], ver, [json.dumps(c) for c in conc])
-            tr = {"start": 1, "ver0": ver, "reqs": seq, "err": False, "initial": None, "replies": [], "fresh": {"present": False}}
+            tr = {"start": 1, "ver0": ver, "reqs": seq, "err": False, "initial": None, "replies": [], "fresh": {"present": False}, "disk": []}
             try:
                 if exc is not None:
                     raise exc
@@ -158,6 +163,11 @@ def main(run):
                 fr = servercheck.abstract_message(json.loads(lines2[0]), info, ids, tab)
                 fr["present"] = True
                 tr["fresh"] = fr
+                disk = []
+                for pth in paths:
+                    with open(pth) as f_:
+                        disk.append([[n_, v_, bool(d_)] for n_, v_, d_ in storecheck.parse_sdkconfig(f_.read(), info)])
+                tr["disk"] = disk
             except BaseException as e:
                 tr["err"] = True
                 tr["initial"] = tr["initial"] or {"values": {}, "visible": {}, "ranges": {}, "defaults": {}, "error": False, "version": ver}
